@@ -266,10 +266,16 @@ structure SourceSegment where
   alive : Nat → Bool
   hasDeletes : Bool
 
-/-- the guard of the stacking shortcut in `write_storable_fields` (true = copy per document) -/
+/-- third clause of the copy condition, with the comparison operator found in the source -/
+def codecClause (C : Compression) (s : SourceSegment) : Bool :=
+  if Gen.STACK_CODEC_CLAUSE_IS_NE = 1 then decide (s.store.decompId ≠ C.id)
+  else decide (s.store.decompId = C.id)
+
+/-- the guard of the stacking shortcut in `write_storable_fields` (true = copy per document):
+`reader.has_deletes() || block_checkpoints().take(7).count() < 6 || decompressor != compressor` -/
 def mustCopy (C : Compression) (minBlocks : Nat) (s : SourceSegment) : Bool :=
   s.hasDeletes || decide (((checkpointsOf s.store.index).take (minBlocks + 1)).length < minBlocks)
-    || decide (s.store.decompId ≠ C.id)
+    || codecClause C s
 
 /-- per-document copy: `for doc_bytes in iter_raw(alive) { store_bytes(doc_bytes?) }`;
 `none` = the merge fails -/
